@@ -17,10 +17,20 @@ VARIABLE l
 e == Trace[l]
 
 White == {9, 10, 11, 12, 13, 32}
+\* white space beyond ASCII as the driver writes it (UTF-8 bytes of U+0085, U+00A0, U+2003, U+3000)
+USpaces == {<<194, 133>>, <<194, 160>>, <<226, 128, 131>>, <<227, 128, 128>>}
+StartsWith(s, u) == Len(s) >= Len(u) /\ SubSeq(s, 1, Len(u)) = u
+EndsWith(s, u) == Len(s) >= Len(u) /\ SubSeq(s, Len(s) - Len(u) + 1, Len(s)) = u
 RECURSIVE TrimL(_)
-TrimL(s) == IF Len(s) > 0 /\ s[1] \in White THEN TrimL(Tail(s)) ELSE s
+TrimL(s) == IF Len(s) > 0 /\ s[1] \in White THEN TrimL(Tail(s))
+            ELSE IF \E u \in USpaces : StartsWith(s, u)
+                 THEN LET u == CHOOSE u \in USpaces : StartsWith(s, u) IN TrimL(SubSeq(s, Len(u) + 1, Len(s)))
+            ELSE s
 RECURSIVE TrimR(_)
-TrimR(s) == IF Len(s) > 0 /\ s[Len(s)] \in White THEN TrimR(SubSeq(s, 1, Len(s) - 1)) ELSE s
+TrimR(s) == IF Len(s) > 0 /\ s[Len(s)] \in White THEN TrimR(SubSeq(s, 1, Len(s) - 1))
+            ELSE IF \E u \in USpaces : EndsWith(s, u)
+                 THEN LET u == CHOOSE u \in USpaces : EndsWith(s, u) IN TrimR(SubSeq(s, 1, Len(s) - Len(u)))
+            ELSE s
 Trim(s) == TrimR(TrimL(s))
 Lower(s) == [i \in 1..Len(s) |-> IF s[i] >= 65 /\ s[i] <= 90 THEN s[i] + 32 ELSE s[i]]
 Quotes(s) == Cardinality({i \in 1..Len(s) : s[i] = 34})
@@ -44,7 +54,7 @@ PairVerdict == LET wa == WellFormed(e.a)
                ELSE IF e.a.toks[Len(e.a.toks)].k = "ERROR" /\ e.b.toks[Len(e.b.toks)].k = "ERROR" THEN "open:both-end-in-error"
                ELSE IF SameKinds(e.a.toks, e.b.toks, e.var = "case") THEN "ok"
                ELSE IF e.var = "case" THEN "letter-case-changes-tokens"
-               ELSE IF e.var = "ws" THEN "amount-of-white-space-changes-tokens"
+               ELSE IF e.var = "ws" \/ e.var = "wsu" THEN "amount-of-white-space-changes-tokens"
                ELSE "inserted-white-space-changes-tokens"
 
 Verdict == CASE e.ev = "Lex" -> LexVerdict [] e.ev = "One" -> OneVerdict [] e.ev = "Pair" -> PairVerdict
